@@ -2,4 +2,4 @@ Require Import Dispatch.
 From Coq Require Import Strings.Byte.
 Require Import Extraction ExtrOcamlBasic.
 Extraction Language OCaml.
-Extraction "model.ml" dispatch Byte.to_N Byte.of_N.
+Extraction "model.ml" dispatch verif_byte_to_N verif_byte_of_N.
